@@ -22,10 +22,11 @@ ScOf(j) == [loaders |-> [i \in 1..Len(j.loaders) |-> PartOf(j.loaders[i])],
             procs   |-> [i \in 1..Len(j.procs) |-> PartOf(j.procs[i])],
             runners |-> [i \in 1..Len(j.runners) |-> PartOf(j.runners[i])],
             closers |-> [i \in 1..Len(j.closers) |-> [fail |-> j.closers[i].fail]],
-            comps |-> j.comps, initFail |-> j.initFail]
+            comps |-> j.comps, initFail |-> j.initFail, cycle |-> j.cycle]
 TraceScenarios == {ScOf(Trace[1].sc)}
 
 TLoad == IsEv("load") /\ E.i \in 1..NL /\ E.ok = ~sc.loaders[E.i].fail /\ Load(E.i)
+TEarly == IsEv("early") /\ E.p \in 1..NP /\ Early(E.p)
 TBefore == IsEv("before") /\ E.c = ci /\ Before(E.p)
 TInit == IsEv("init") /\ E.c = ci /\ E.ok = (sc.initFail # ci) /\ InitC
 TAfter == IsEv("after") /\ E.c = ci /\ After(E.p)
@@ -37,10 +38,10 @@ TCloseReturn == IsEv("closeReturn") /\ CloseReturn
 ResetTo(s) ==
   /\ sc' = s /\ loaded' = <<>> /\ ci' = 1 /\ stage' = FirstStage(s) /\ pdone' = <<>> /\ ran' = <<>>
   /\ status' = "run" /\ cst' = [j \in 1..Len(s.closers) |-> "idle"] /\ closeRet' = FALSE
-  /\ initCnt' = [c \in 1..s.comps |-> 0]
+  /\ initCnt' = [c \in 1..s.comps |-> 0] /\ early' = <<>>
 TReset == IsEv("scenario") /\ ResetTo(ScOf(E.sc))
 TraceInit == l = 2 /\ Init /\ aft = [c \in 1..K |-> 0] /\ bad = FALSE
-TraceNext == (TLoad \/ TBefore \/ TInit \/ TAfter \/ TRun \/ TRunReturn \/ TCloseBegin \/ TCloseEnd \/ TCloseReturn \/ TReset)
+TraceNext == (TLoad \/ TEarly \/ TBefore \/ TInit \/ TAfter \/ TRun \/ TRunReturn \/ TCloseBegin \/ TCloseEnd \/ TCloseReturn \/ TReset)
              /\ UNCHANGED <<aft, bad>>
 TraceSpec == TraceInit /\ [][TraceNext]_<<vars, l, aft, bad>>
 Accepted == IF TLCGet("stats").diameter = Len(Trace) THEN TRUE
@@ -61,6 +62,7 @@ MStep ==
      /\ initCnt' = IF E.ev = "init" /\ E.c \in 1..K THEN [initCnt EXCEPT ![E.c] = @ + 1] ELSE initCnt
      /\ aft' = IF E.ev = "after" /\ E.c \in 1..K THEN [aft EXCEPT ![E.c] = @ + 1] ELSE aft
      /\ ran' = IF E.ev = "run" THEN Append(ran, E.i) ELSE ran
+     /\ early' = IF E.ev = "early" THEN Append(early, E.p) ELSE early
      /\ status' = IF E.ev = "runReturn" THEN (IF E.panic THEN "panic" ELSE IF E.ok THEN "ok" ELSE "err")
                   ELSE IF (E.ev \in {"load", "init", "run"} /\ ~E.ok) THEN "failed" ELSE status
      /\ cst' = IF E.ev = "closeBegin" /\ E.j \in 1..NC THEN [cst EXCEPT ![E.j] = "begun"]
@@ -77,6 +79,8 @@ M_WellFormed == ~bad
 \* C12 at the three call sites: what was invoked so far is a prefix of a sorted permutation, and complete at the end
 M_C12_ProcsComplete ==
   [][(E.ev = "init" /\ NP > 0) => IsSortedPerm(pdone, sc.procs)]_<<vars, l, aft, bad>>       \* all before-callbacks ran, in order
+\* the early-reference callbacks: in the contract's sequence (C12_Early on every state), and all of them before the first Init
+M_C12_EarlyComplete == (sc.cycle /\ K >= 1 /\ initCnt[1] > 0) => IsSortedPerm(early, sc.procs)
 M_C12_AfterComplete == \A c \in 1..K : (status \in {"ok"} => aft[c] = NP)
 M_C12_LoadersComplete == (status = "ok") => IsSortedPerm(loaded, sc.loaders)
 M_C13_AllRunners == (status = "ok") => IsSortedPerm(ran, sc.runners)
